@@ -275,7 +275,7 @@ func (c bookingCase) runObs(m sink) (o bookingObs) {
 	select {
 	case <-subscribing:
 		trace = append(trace, "subscription observed at coll.onUpdate.beforeListen")
-	case <-time.After(fenceTimeout):
+	case <-time.After(bookingWait):
 		m.Count("subscription not observed at the yield point")
 		trace = append(trace, "subscription NOT observed at coll.onUpdate.beforeListen within 5s")
 	}
@@ -313,7 +313,7 @@ func (c bookingCase) runObs(m sink) (o bookingObs) {
 		return fid, set("set:" + fid + ":" + fper)
 	}
 	await := func(fid string) (evs []string, ok bool) {
-		timer := time.NewTimer(fenceTimeout)
+		timer := time.NewTimer(bookingWait)
 		defer timer.Stop()
 		for {
 			select {
@@ -455,7 +455,7 @@ func (c bookingCase) runObs(m sink) (o bookingObs) {
 		// it starts (yield point bus.send.beforeListener, the subscriber being the only listener): the
 		// first probe that is handed to the listener is the first event of the stream, the base line taken
 		// before it is the subscriber's view.
-		deadline := time.Now().Add(fenceTimeout)
+		deadline := time.Now().Add(bookingWait)
 		for !ok {
 			base, l, err := listNow()
 			if err != nil {
@@ -492,6 +492,7 @@ func (c bookingCase) runObs(m sink) (o bookingObs) {
 		evs, ok = drain()
 	}
 	if !ok {
+		bookingFencesLost++
 		trace = append(trace, "seed fence lost: "+showChanges(evs))
 		m.Violate("C08/booking/PullBookings/fence-lost", "a newly created intersecting booking was not delivered within 5s", c, "ADD", showChanges(evs))
 		return
@@ -521,6 +522,7 @@ func (c bookingCase) runObs(m sink) (o bookingObs) {
 		}
 		evs, ok := drain()
 		if !ok {
+			bookingFencesLost++
 			trace = append(trace, "fence lost after "+op+": "+showChanges(evs))
 			m.Violate("C08/booking/PullBookings/fence-lost", "a newly created intersecting booking was not delivered within 5s", c, "ADD", showChanges(evs))
 			return
@@ -625,10 +627,18 @@ func queryShape(q string) string {
 	return "both"
 }
 
+// bookingWait bounds every wait for a fence event of the booking family.  On the unchanged tree a fence
+// arrives within microseconds; once a case has lost a fence in its run AND in its confirmation run (each
+// waiting the full fenceTimeout) the tree is broken, and the following cases wait 500 ms, after the next
+// such case 50 ms - so that a broken tree is reported within the quick tier's budget.
+var bookingWait = fenceTimeout
+var bookingFencesLost = 0
+
 // runConfirmed evaluates the case, re-running it on a fresh server before a violation is reported.
 func (c bookingCase) runConfirmed(res *lib.Result, m sink, tie *lib.Tie, drv *lib.Driver) {
 	var first bookingObs
 	runs := 0
+	lostBefore := bookingFencesLost
 	confirmed(res, m, func(s sink) any {
 		o := c.runObs(s)
 		if runs == 0 {
@@ -637,6 +647,14 @@ func (c bookingCase) runConfirmed(res *lib.Result, m sink, tie *lib.Tie, drv *li
 		runs++
 		return o.Trace
 	}, func(t1, t2 any) any { return enrich(c, t1, t2) })
+	if bookingFencesLost-lostBefore >= 2 {
+		switch {
+		case bookingWait > 500*time.Millisecond:
+			bookingWait = 500 * time.Millisecond
+		case bookingWait > 50*time.Millisecond:
+			bookingWait = 50 * time.Millisecond
+		}
+	}
 	c.tieRecord(tie, drv, first)
 }
 
